@@ -18,12 +18,16 @@ RULE = ("cases = (tensor of 1-3 ranks, its own rank formats left default or set 
         "populated} sub-fibers x every format assignment {C,U}^d x declared/estimated shapes, every point prefix; "
         "requery: the same Format object asked again after in-place mutations of the tensor "
         "(getPayloadRef insertions at present / absent / out-of-shape points, setRoot): every 2-rank tree over 2 "
-        "coordinates x every insertion point; lattice: every subset of omitted fields of one rank / omitted rank key / omitted root fields x every "
+        "coordinates x every insertion point; variants (every 4th 2-rank tree x every format): unowned fibers with own format U / own shape / own default, "
+        "restricted active ranges, float / bool / str values and float defaults (leaves abstracted to default / "
+        "non-default), queries inside a Metrics bracket, boxed coordinates, a second Format on the filled dict; "
+        "tensors derived by splitUniform / swizzleRanks; multi-digit coordinates; 4 ranks; flattened ranks (known "
+        "finding); lattice: every subset of omitted fields of one rank / omitted rank key / omitted root fields x every "
         "tensor-format assignment; random: larger trees, widths in {0,1,8,32} and random weights, missing fields, ~4% malformed specs "
         "(compared on accept/reject only). non-trivial = accepted spec, some non-zero width, and at least one "
         "of: depth >= 2, an uncompressed rank, an explicit default, an empty leaf fiber")
 
-RANK_IDS = ["M", "K", "J", "H"]
+RANK_IDS = ["M", "K", "J", "H", "G"]
 INT_FIELDS = ["rhbits", "fhbits", "cbits", "pbits"]
 _fmt_mod = None
 
@@ -154,6 +158,35 @@ def sample_points(rng, D, tree, n):
     return pts
 
 
+COORD_TABLE = [0, 1, 9, 10, 11, 12, 99, 100, 101, 102, 110, 111, 120, 121]
+
+
+def remap_tree(tree, depth, f):
+    return [[f(c), (s if depth == 1 else remap_tree(s, depth - 1, f))] for c, s in tree]
+
+
+def variant_options(rng, dflt, build):
+    """configuration that the footprints must not depend on / value kinds / ways of asking"""
+    o = {}
+    if rng.random() < 0.25:
+        o["vkind"] = rng.choice(["float", "fdflt", "str"] + (["bool"] if dflt == 0 else []))
+    if build in ("fromFiber", "fromFiber+shape"):
+        if rng.random() < 0.25:
+            o["fattrs_fmt"] = "U"
+        if rng.random() < 0.2 and "vkind" not in o:
+            o["fdefault"] = 7 if dflt == 0 else 0
+    if rng.random() < 0.2:
+        lo = rng.randrange(0, 3)
+        o["active"] = [lo, lo + rng.randrange(1, 3)]
+    if rng.random() < 0.15:
+        o["metrics"] = True
+    if rng.random() < 0.2:
+        o["pcoord"] = True
+    if rng.random() < 0.2:
+        o["reuse_spec"] = True
+    return o or None
+
+
 def mut_points(muts):
     """every prefix of every point an in-place mutation touches"""
     pts = []
@@ -172,7 +205,7 @@ def gen(seed, tier):
     scopes = [(1, 3), (2, 2)] if quick else [(1, 4), (2, 2), (2, 3), (3, 2)]
     # thorough: the two big families are walked on a sub-lattice whose offset is the seed, so that
     # runs with different seeds together cover them exhaustively
-    stride = {(2, 3): 4, (3, 2): 3}
+    stride = {(2, 3): 5, (3, 2): 4}
     for D, n in scopes:
         trees = all_trees(D, n)
         step = stride.get((D, n), 1)
@@ -243,11 +276,55 @@ def gen(seed, tier):
                 yield {"prop": PROP, "D": D, "dflt": 0, "t": tree, "build": "fromFiber+shape", "shape": [3] * D,
                        "tfmt": None, "spec": weighted_spec(D, fmts), "points": all_points(D, [0, 1, 2]),
                        "muts": [[["setroot", tree2]], [["setroot", tree]]]}
+    # ---- configuration the footprints must not read, value kinds, ways of asking (seed independent) ----
+    base22 = [t for i, t in enumerate(trees22) if i % 4 == 1]
+    base22_7 = [t for i, t in enumerate(all_trees(2, 2, (0, 7))) if i % 4 == 1]
+    fixed_opts = [{"fattrs_fmt": "U"}, {"fshape": [5, 4]}, {"fdefault": 7}, {"active": [1, 2]}, {"active": [0, 1]},
+                  {"vkind": "float"}, {"vkind": "fdflt"}, {"vkind": "bool"}, {"vkind": "str"},
+                  {"metrics": True}, {"pcoord": True}, {"reuse_spec": True}]
+    for oi, o in enumerate(fixed_opts):
+        for ti, tree in enumerate(base22):
+            for fi, fmts in enumerate(["CC", "CU", "UC", "UU"]):
+                build = ["fromFiber", "fromFiber+shape"][(ti + fi) % 2]
+                sp = weighted_spec(2, fmts)
+                if "fattrs_fmt" in o:       # the unowned fibers say "U": an omitted format is still "C"
+                    sp["ranks"][fi % 2] = [kv for kv in sp["ranks"][fi % 2] if kv[0] != "format"]
+                yield {"prop": PROP, "D": 2, "dflt": 0, "t": tree, "build": build,
+                       "shape": [3, 3] if build == "fromFiber+shape" else None, "tfmt": None, "opt": o,
+                       "spec": sp, "points": all_points(2, [0, 1, 2]),
+                       "muts": [[["ref", [ti % 3, (ti + fi) % 3], 5]]] if build == "fromFiber+shape" and oi % 2 else None}
+    for ti, tree in enumerate(base22_7):    # tensor default 7, fibers built with default 0 / float default 7.0
+        for fi, fmts in enumerate(["CC", "CU", "UC", "UU"]):
+            for o in ({"fdefault": 0}, {"vkind": "fdflt"}, {"vkind": "float"}):
+                yield {"prop": PROP, "D": 2, "dflt": 7, "t": tree, "build": "fromFiber+shape", "shape": [3, 3],
+                       "tfmt": None, "opt": o, "spec": weighted_spec(2, fmts), "points": all_points(2, [0, 1, 2])}
+    # ---- tensors derived by a transform: splitUniform (one more rank), swizzleRanks ----
+    pts3 = all_points(3, [0, 1, 2, 3])
+    for ti, tree in enumerate(base22):
+        for step in (1, 2, 3):
+            for depth in (0, 1):
+                fmts = "".join("CU"[(ti + step + depth + k) % 2] for k in range(3))
+                yield {"prop": PROP, "D": 3, "dflt": 0, "t": tree, "build": "split", "xarg": [step, depth],
+                       "shape": [4, 4], "tfmt": ["U", None] if ti % 2 else None, "spec": weighted_spec(3, fmts),
+                       "points": pts3}
+        for fmts in ("CC", "CU", "UC", "UU"):
+            yield {"prop": PROP, "D": 2, "dflt": 0, "t": tree, "build": "swizzle", "xarg": [1, 0],
+                   "shape": [3, 3], "tfmt": None, "spec": weighted_spec(2, fmts), "points": all_points(2, [0, 1, 2])}
+    for ti, tree in enumerate(all_trees(1, 4)):
+        for step in (1, 2, 3):
+            yield {"prop": PROP, "D": 2, "dflt": 0, "t": tree, "build": "split", "xarg": [step, 0],
+                   "shape": [5], "tfmt": None, "spec": weighted_spec(2, ["CC", "CU", "UC", "UU"][(ti + step) % 4]),
+                   "points": all_points(2, [0, 1, 2, 3, 4])}
+    # ---- merged ranks: the rank id is a list (known finding: no spec can be written for it) ----
+    t3 = [[0, [[1, [[0, 1], [2, 3]]], [2, []]]], [3, [[0, [[1, 5]]]]]]
+    for depth, style in ((0, "tuple"), (1, "tuple"), (1, "linear"), (0, "absolute")):
+        yield {"prop": PROP, "D": 2, "dflt": 0, "t": t3, "build": "flatten", "xarg": [depth, style], "shape": [4, 4, 4],
+               "tfmt": None, "spec": {"root": None, "ranks": [None, None]}, "points": [[]]}
     # 3-rank trees in the quick tier: a seeded sample of the exhaustive family
     rng = random.Random(seed)
     if quick:
         trees3 = all_trees(3, 2)
-        for _ in range(1500):
+        for _ in range(1000):
             tree = rng.choice(trees3)
             fmts = [rng.choice("CU") for _ in range(3)]
             build = rng.choice(["fromFiber", "fromFiber+shape"])
@@ -256,13 +333,19 @@ def gen(seed, tier):
                    "tfmt": [rng.choice([None, "C", "U"]) for _ in range(3)],
                    "spec": weighted_spec(3, fmts), "points": all_points(3, [0, 1, 2])}
     # ---- seeded random ----
-    nrand = 12000 if quick else 120000
+    nrand = 9000 if quick else 60000
     for i in range(nrand):
-        D = rng.choice([1, 2, 2, 3, 3])
-        n = rng.choice([2, 3, 4, 6]) if D == 3 else rng.choice([2, 3, 5, 8, 12])
+        D = rng.choice([1, 2, 2, 3, 3] * 4 + [4])
+        n = rng.choice([2, 3]) if D == 4 else rng.choice([2, 3, 4, 6]) if D == 3 else rng.choice([2, 3, 5, 8, 12])
         dflt = rng.choice([0, 0, 0, 7])
         pool = (1, 2, -3, 7, 0)
         tree = H.gen_tree(rng, D, n, pool, dflt)
+        if rng.random() < 0.15:
+            # multi-digit coordinates (9 / 10 / 100 …): an increasing re-labelling of 0..n-1
+            tab = sorted(rng.sample(COORD_TABLE[:6] if D >= 3 else COORD_TABLE, min(n, 6 if D >= 3 else len(COORD_TABLE))))
+            tab = tab + [tab[-1] + 1 + k for k in range(n + 2 - len(tab))]
+            tree = remap_tree(tree, D, lambda c: tab[c])
+            n = tab[n - 1] + 1
         r = rng.random()
         mc = max_coords(tree, D)
         if r < 0.30:
@@ -283,6 +366,9 @@ def gen(seed, tier):
         else:
             spec = random_spec(rng, D)
         tf = [rng.choice([None, "C", "U", "U"]) for _ in range(D)] if rng.random() < 0.6 else None
+        opt = variant_options(rng, dflt, build) if rng.random() < 0.4 else None
+        if opt and opt.get("vkind") and build == "fromUncompressed" and dflt != 0:
+            opt.pop("vkind")
         muts = None
         if shape is not None and rng.random() < 0.35:
             # rounds of in-place mutations between queries of the same Format object; the points
@@ -300,9 +386,26 @@ def gen(seed, tier):
                         batch.append(["ref", path, rng.choice(pool) if L == D and rng.random() < 0.8 else None])
                 muts.append(batch)
         yield {"prop": PROP, "D": D, "dflt": dflt, "t": tree, "build": build, "shape": shape, "tfmt": tf,
-               "tfmt_first": rng.random() < 0.5, "muts": muts,
+               "tfmt_first": rng.random() < 0.5, "muts": muts, "opt": opt,
                "spec": spec, "points": sample_points(rng, D, tree, n) + mut_points(muts),
                "order": rng.randrange(1 << 30)}
+        if i % 12 == 0:
+            # a tensor derived by a transform from a random declared-shape tensor
+            bd = rng.choice([1, 2, 2, 3])
+            n2 = rng.choice([2, 3, 4, 6])
+            base = H.gen_tree(rng, bd, n2, pool, 0)
+            shp = [max(1, m) + rng.randrange(0, 2) for m in max_coords(base, bd)]
+            tf2 = [rng.choice([None, "C", "U"]) for _ in range(bd)]
+            if bd >= 2 and rng.random() < 0.4:
+                perm = list(range(bd))
+                rng.shuffle(perm)
+                kind, D2, xarg = "swizzle", bd, perm
+            else:
+                kind, D2, xarg = "split", bd + 1, [rng.choice([1, 2, 3, 4]), rng.randrange(0, bd)]
+            yield {"prop": PROP, "D": D2, "dflt": 0, "t": base, "build": kind, "xarg": xarg, "shape": shp,
+                   "tfmt": tf2, "spec": random_spec(rng, D2) if rng.random() < 0.5 else
+                   weighted_spec(D2, [rng.choice("CU") for _ in range(D2)]),
+                   "points": sample_points(rng, min(D2, bd), base, n2) + all_points(min(D2, 2), [0, 1, 2, 3])}
 
 
 # ---------------------------------------------------------------------------------------
@@ -334,20 +437,70 @@ def _leaves(tree, depth, prefix=()):
 
 def set_formats(t, case):
     """the tensor's own per-rank iteration formats (Tensor.setFormat): part of the configuration"""
-    for rid, f in zip(RANK_IDS[:case["D"]], case.get("tfmt") or []):
+    for rid, f in zip(t.getRankIds(), case.get("tfmt") or []):
         if f is not None:
             t.setFormat(rid, f)
 
 
+def tensor_default(case):
+    """the leaf default the tensor is created with (value kinds: float defaults 0.5 / 7.0)"""
+    o = case.get("opt") or {}
+    if o.get("vkind") == "fdflt":
+        return 0.5 if case["dflt"] == 0 else 7.0
+    return case["dflt"]
+
+
+def leaf_value(case, v):
+    """value kinds: the generator's int leaf is mapped to a float / bool / str of the same emptiness"""
+    kind = (case.get("opt") or {}).get("vkind")
+    d = case["dflt"]
+    if kind is None or v is None:
+        return v
+    if kind == "float":
+        return v if v == d else v + 0.25
+    if kind == "fdflt":
+        dd = tensor_default(case)
+        if v == d:
+            return 7 if dd == 7.0 and v % 2 else dd      # 7 == 7.0: an int equal to the float default
+        return v if v != dd else v + 1
+    if kind == "bool":      # only generated with default 0: False == 0 is empty, True is not
+        return bool(v)
+    if kind == "str":
+        return v if v == d else "v%d" % v
+    raise ValueError(kind)
+
+
+def _build_fiber(case, tree, depth, level=0):
+    """unowned fibers through the public constructor; options: own default different from the
+    tensor's, own shape, own rank-attribute format (all superseded by the owning rank on adoption)"""
+    F = H.ft().Fiber
+    o = case.get("opt") or {}
+    kw = {"default": o["fdefault"] if "fdefault" in o else tensor_default(case)}
+    if o.get("fshape"):
+        kw["shape"] = o["fshape"][level]
+    if depth == 1:
+        f = F([c for c, _ in tree], [leaf_value(case, v) for _, v in tree], **kw)
+    else:
+        f = F([c for c, _ in tree], [_build_fiber(case, sub, depth - 1, level + 1) for _, sub in tree], **kw)
+    if o.get("fattrs_fmt"):
+        f.getRankAttrs().setFormat(o["fattrs_fmt"])
+    return f
+
+
 def build_tensor(case):
     ft = H.ft()
-    D, dflt, tree, build, shape = case["D"], case["dflt"], case["t"], case["build"], case.get("shape")
+    D, tree, build, shape = case["D"], case["t"], case["build"], case.get("shape")
+    dflt = tensor_default(case)
     ids = RANK_IDS[:D]
     if build in ("fromFiber", "fromFiber+shape"):
-        fib = H.build_fiber(tree, D, dflt)
+        fib = _build_fiber(case, tree, D)
         return ft.Tensor.fromFiber(rank_ids=ids, fiber=fib, shape=shape, default=dflt)
     if build == "fromUncompressed":
-        return ft.Tensor.fromUncompressed(rank_ids=ids, root=_dense(tree, D, shape), shape=shape, default=dflt)
+        dense = _dense(tree, D, shape)
+        if (case.get("opt") or {}).get("vkind"):
+            mp = lambda x: [mp(y) for y in x] if isinstance(x, list) else (0 if x == 0 and case["dflt"] != 0 else leaf_value(case, x))
+            dense = mp(dense)
+        return ft.Tensor.fromUncompressed(rank_ids=ids, root=dense, shape=shape, default=dflt)
     if build == "mutable":
         t = ft.Tensor(rank_ids=ids, shape=shape, default=dflt)
         if case.get("tfmt_first"):
@@ -357,8 +510,20 @@ def build_tensor(case):
         for path, v in items:
             ref = t.getPayloadRef(*path)
             if v is not None:
-                ref <<= v
+                ref <<= leaf_value(case, v)
         return t
+    if build in ("split", "swizzle", "flatten"):
+        # tensors derived by a transform (the result is what is measured; formats carry over)
+        bd = {"split": D - 1, "swizzle": D, "flatten": D + 1}[build]
+        base = ft.Tensor.fromFiber(rank_ids=RANK_IDS[:bd], fiber=_build_fiber(case, tree, bd), shape=shape,
+                                   default=dflt)
+        set_formats(base, case)
+        a = case["xarg"]
+        if build == "split":
+            return base.splitUniform(a[0], depth=a[1])
+        if build == "swizzle":
+            return base.swizzleRanks([RANK_IDS[i] for i in a])
+        return base.flattenRanks(depth=a[0], coord_style=a[1])
     raise ValueError(build)
 
 
@@ -395,12 +560,24 @@ def _ranklists(t):
     return [[id(f) for f in r.getFibers()] for r in t.ranks]
 
 
-def _observe_state(t, ids, side):
+def _canon(x, dflt):
+    """value kinds other than int: a leaf is abstracted to 0 (equal to the tensor's default) or 1"""
+    if isinstance(x, list):
+        return [[c, _canon(p, dflt)] for c, p in x]
+    if isinstance(x, dict) and "float" in x:
+        x = float.fromhex(x["float"])
+    return 0 if x == dflt else 1
+
+
+def _observe_state(t, ids, side, canon=None):
     """abstraction function: the tensor as it is now"""
     root = t.getRoot()
     by_level = {}
     id2path = dict(_walk_ids(root, [], 0, by_level))
-    ph = {"state": H.snapshot(root), "shape": t.getShape(), "tformat": [t.getFormat(r) for r in ids]}
+    state = H.snapshot(root)
+    if canon is not None:
+        state = _canon(state, canon)
+    ph = {"state": state, "shape": t.getShape(), "tformat": [t.getFormat(r) for r in ids]}
     ph["ranklists"] = [[[id2path.get(id(f)), len(f.coords)] for f in r.getFibers()] for r in t.ranks]
     # modelling precondition: the shape an uncompressed fiber reports is its rank's shape
     ok = all(f.getShape(all_ranks=False) == ph["shape"][lvl] for lvl, fs in by_level.items() for f in fs)
@@ -408,9 +585,23 @@ def _observe_state(t, ids, side):
     return ph
 
 
-def _query(fmt, t, ids, points, ph, side):
+def _query(fmt, t, ids, points, ph, side, opt=None):
     """one round of queries against one (possibly already used) Format object"""
-    before = (copy.deepcopy(ph["state"]), _ranklists(t), t.getShape())
+    opt = opt or {}
+    if opt.get("pcoord"):       # coordinates handed over boxed
+        P = H.ft().Payload
+        points = [[P(c) for c in p] for p in points]
+    if opt.get("metrics"):      # queries issued inside a metrics collection bracket
+        H.ft().Metrics.beginCollect()
+    try:
+        _query_inner(fmt, t, ids, points, ph, side)
+    finally:
+        if opt.get("metrics"):
+            H.ft().Metrics.endCollect()
+
+
+def _query_inner(fmt, t, ids, points, ph, side):
+    before = (copy.deepcopy(H.snapshot(t.getRoot())), _ranklists(t), t.getShape())
     ph["root"] = fmt.getRoot()
     ph["ranks"] = [fmt.getRank(r) for r in ids]
     ph["tensor"] = fmt.getTensor()
@@ -437,9 +628,9 @@ def apply_mutations(t, case, batch):
         if op[0] == "ref":          # getPayloadRef(*path) creates what is missing; optional `<<= v`
             ref = t.getPayloadRef(*op[1])
             if op[2] is not None:
-                ref <<= op[2]
+                ref <<= leaf_value(case, op[2])
         elif op[0] == "setroot":    # a different tree becomes the tensor's root
-            t.setRoot(H.build_fiber(op[1], case["D"], case["dflt"]))
+            t.setRoot(_build_fiber(case, op[1], case["D"]))
         else:
             raise ValueError(op)
 
@@ -447,19 +638,37 @@ def apply_mutations(t, case, batch):
 def run(case):
     F = Format()
     D = case["D"]
-    ids = RANK_IDS[:D]
-    t = build_tensor(case)
-    set_formats(t, case)
+    opt = case.get("opt") or {}
     side = {}
-    impl = _observe_state(t, ids, side)
+    t = build_tensor(case)
+    if case["build"] not in ("split", "swizzle", "flatten"):
+        set_formats(t, case)
+    ids = t.getRankIds()
+    if opt.get("active"):       # restricted active ranges on the root and its children: not read by footprints
+        lo, hi = opt["active"]
+        t.getRoot().setActive((lo, hi))
+        for p in t.getRoot().payloads:
+            if isinstance(p, H.ft().Fiber):
+                p.setActive((lo, hi))
+    canon = tensor_default(case) if opt.get("vkind") else None
+    if any(not isinstance(r, str) for r in ids):
+        # a rank id that cannot be a dictionary key (flattened ranks): the state is still observed
+        ids_key = None
+    else:
+        ids_key = ids
+    impl = _observe_state(t, ids, side, canon)
+    if canon is not None:
+        impl["dflt"] = 0
     spec = {}
     if case["spec"]["root"] is not None:
         spec["root"] = _to_py(case["spec"]["root"])
     for rid, e in zip(ids, case["spec"]["ranks"]):
-        if e is not None:
+        if e is not None and ids_key is not None:
             spec[rid] = _to_py(e)
     try:
         fmt = F(t, spec)
+        if opt.get("reuse_spec"):   # a second Format built on the dictionary the first one filled in
+            fmt = F(t, spec)
     except AssertionError:
         impl["outcome"] = "rejected"
         case["impl"] = impl
@@ -473,7 +682,7 @@ def run(case):
     impl["outcome"] = "ok"
     try:
         impl["filled"] = {"root": _from_py(fmt.spec["root"]), "ranks": [_from_py(fmt.spec[r]) for r in ids]}
-        _query(fmt, t, ids, case["points"], impl, side)
+        _query(fmt, t, ids, case["points"], impl, side, opt)
         side["getters"] = all(
             fmt.getCBits(r) == fmt.spec[r]["cbits"] and fmt.getPBits(r) == fmt.spec[r]["pbits"] and
             fmt.getFHBits(r) == fmt.spec[r]["fhbits"] and fmt.getRHBits(r) == fmt.spec[r]["rhbits"] and
@@ -482,13 +691,19 @@ def run(case):
             fmt.getElem(r, "elem") == fmt.spec[r]["cbits"] + fmt.spec[r]["pbits"] for r in ids)
         if case.get("muts"):
             # the SAME Format object is asked again after each batch of in-place mutations
-            phases = [{k: v for k, v in impl.items() if k not in ("outcome", "filled")}]
+            phases = [{k: v for k, v in impl.items() if k not in ("outcome", "filled", "dflt")}]
             for batch in case["muts"]:
                 apply_mutations(t, case, batch)
-                ph = _observe_state(t, ids, side)
-                _query(fmt, t, ids, case["points"], ph, side)
+                ph = _observe_state(t, ids, side, canon)
+                _query(fmt, t, ids, case["points"], ph, side, opt)
                 phases.append(ph)
             impl = {"outcome": "ok", "filled": impl["filled"], "phases": phases}
+            if canon is not None:
+                impl["dflt"] = 0
+        # the queries leave the (filled) specification alone
+        side["spec_unchanged_by_queries"] = impl["filled"] == {
+            "root": _from_py(fmt.spec["root"]), "ranks": [_from_py(fmt.spec[r]) for r in ids]}
+        side["tensor_attrs_unchanged"] = ids == t.getRankIds() and (canon if canon is not None else case["dflt"]) == H.ft().Payload.get(t.getDefault())
     except Exception as e:  # a crash on a legal input is an observation
         impl["outcome"] = H.err_class(e)
         side["no_exception:" + H.err_class(e)] = False
@@ -520,7 +735,7 @@ def nontrivial(case, verdict):
     return case["D"] >= 2 or has_u or "explicit-default" in t or "empty-leaf-fiber" in t
 
 
-ORDER = ["filled-defaults", "root", "fiber", "rank", "subtree", "tensor", "tensor-after-queries"]
+ORDER = ["pre:state", "filled-defaults", "root", "fiber", "rank", "subtree", "tensor", "tensor-after-queries"]
 
 
 def signature(case, verdict, failed):
@@ -528,6 +743,10 @@ def signature(case, verdict, failed):
     executable spec (in the order of ORDER), whether the rank lists mirrored the tree, and the
     failing side conditions"""
     parts = []
+    out = (case.get("impl") or {}).get("outcome", "")
+    if case.get("build") == "flatten" and out.startswith("ERR:"):
+        # rank ids of merged ranks are lists: they cannot be keys of (or be looked up in) a spec dict
+        return "flattened-rank-id:Format-constructor:" + out
     if "spec" in failed:
         why = verdict.get("why", "").replace("spec fails on: ", "").split(", ")
         first = [w for w in ORDER if w in why]
@@ -599,7 +818,13 @@ def extra_evidence(results):
         builds[c.get("build")] = builds.get(c.get("build"), 0) + 1
         o = (c.get("impl") or {}).get("outcome")
         outcomes[o] = outcomes.get(o, 0) + 1
-    return {"builds": builds, "outcomes": outcomes,
+    opts = {}
+    for c, _ in results:
+        for k, v in (c.get("opt") or {}).items():
+            key = k + (":" + str(v) if k in ("vkind", "fattrs_fmt") else "")
+            opts[key] = opts.get(key, 0) + 1
+    return {"builds": builds, "outcomes": outcomes, "options": opts,
+            "depth4_cases": sum(1 for c, _ in results if c["D"] >= 4),
             "queries_compared": sum((2 * len(c["points"]) + c["D"] + 3) * (1 + len(c.get("muts") or []))
                                     for c, _ in results),
             "cases_with_requery_after_mutation": sum(1 for c, _ in results if c.get("muts"))}
